@@ -22,6 +22,9 @@ def var_key(n):
         if k in ("Index", "Cast") or (k == "OpCall" and n.get("op") in ("[]", "*")) or (k == "UnOp" and n.get("op") == "*"):
             n = (n.get("c") or [None])[0]
             continue
+        if k == "Construct" and len(n.get("c") or []) == 1 and (n.get("t") or "").replace("const", "").strip() in ("vect", "vectint", "std::span<double>", "std::span<int>"):
+            n = n["c"][0]          # a span built over a vector designates the vector
+            continue
         return None
     return None
 
